@@ -240,7 +240,9 @@ func (pr *protoRun) netClass() string {
 // ("<session>/sess", "<session>/proto", ...). C07 varies single streams through
 // rc.Params: alt="<id>|<purpose>|<tag>" replaces exactly that stream by an
 // independent one; short="<id>|<purpose>" hands the same bytes out in short
-// reads; failat="<id>|<purpose>|<k>" makes the k-th Read call fail.
+// reads; failat="<id>|<purpose>|<k>" makes the k-th Read call fail;
+// altcall="<id>|<purpose>|<k>" answers exactly the k-th Read call of the party's
+// own goroutine from an independent stream (every other draw unchanged).
 func partyRand(rc *harness.RunCtx, id sim.ID, purpose string) *sim.Rand {
 	seed := rc.Seed.Sub(fmt.Sprintf("rand/%d/%s", id, purpose))
 	me := fmt.Sprintf("%d|%s", id, purpose)
@@ -253,6 +255,9 @@ func partyRand(rc *harness.RunCtx, id sim.ID, purpose string) *sim.Rand {
 	}
 	if fa := rc.Params["failat"]; strings.HasPrefix(fa, me+"|") {
 		fmt.Sscan(fa[len(me)+1:], &r.FailAt)
+	}
+	if ac := rc.Params["altcall"]; strings.HasPrefix(ac, me+"|") {
+		fmt.Sscan(ac[len(me)+1:], &r.AltRootCall)
 	}
 	if rc.Aux != nil {
 		rc.AuxMu.Lock()
